@@ -197,15 +197,34 @@ def gen_super(rng, idx, tier):
             nv = 2 if (k in ("harmonic2", "histogram") or (k in ("meta_nogrid", "abf_off") and rng.random() < 0.3)) and len(cand) >= 2 else 1
             on = rng.sample(cand, nv)
         biases.append(dict(kind=k, name=name, text=bias_block(rng, k, name, on), on=[v["name"] for v in on]))
+    script = None
+    if idx % 5 == 2 and not abf_prev:
+        # a scripted-force procedure (cv colvar <name> addforce, called before or after the configured biases) next to a
+        # configured restraint on the same non-scalar variable: two sources of force of different origin on one variable
+        ct = rng.choice(["distanceDir", "orientation", "distanceVec", "distanceDir", "orientation"])
+        vx = corpus.make_colvar(rng, sysm, rng.sample(range(1, sysm["natoms"] - 1), 14), "vx", ct, {}, ["width 1.0"])
+        vx.update(kind=ct, width=1.0, periodic=False)
+        vs.append(vx)
+        j = len(biases)
+        name = "b%d_hvx" % (j + 1)
+        biases.append(dict(kind="harmonic_nonscalar", name=name, on=["vx"],
+                           text="harmonic {\n  name %s\n  colvars vx\n  centers %s\n  forceConstant %s\n}\n" % (
+                               name, corpus.value_str(vx["vtype"], corpus.random_value(rng, vx)), fnum(rng.uniform(0.5, 4.0)))))
+        biases.append(dict(kind="script", name="script", on=["vx"], text=""))
+        script = dict(cv="vx", force=fnum(round(rng.uniform(0.1, 0.6), 3)), after=(rng.random() < 0.5))
     X = history(rng, sysm, T)
     F = [[[rng.uniform(-8, 8) for _ in range(3)] for _ in range(sysm["natoms"])] for _ in range(T + 1)]
     return dict(idx=idx, sysm=sysm, vs=vs, biases=biases, X=X, F=F, T=T, tfmode=tfmode, abf_prev=abf_prev,
-                temp=300.0)
+                temp=300.0, script=script)
 
 
 def scen_super(case, members):
     s = corpus.scenario_header(case["sysm"], tfmode=case["tfmode"], extra="dt 1.0\ntemp %s" % fnum(case["temp"]))
-    s += "module\nconfig <<EOC\n" + "\n".join(v["text"] for v in case["vs"]) + "\n" + "".join(case["biases"][j]["text"] for j in members) + "EOC\ninit\n"
+    glob = ""
+    if case.get("script") and any(case["biases"][j]["kind"] == "script" for j in members):
+        s += "forcecb %s %s\n" % (case["script"]["cv"], case["script"]["force"])
+        glob = "scriptedColvarForces on\nscriptingAfterBiases %s\n" % ("on" if case["script"]["after"] else "off")
+    s += "module\nconfig <<EOC\n" + glob + "\n".join(v["text"] for v in case["vs"]) + "\n" + "".join(case["biases"][j]["text"] for j in members) + "EOC\ninit\n"
     for t in range(case["T"] + 1):
         s += corpus.pos_line(case["X"][t]) + "\n"
         if case["tfmode"] != "off":
@@ -275,6 +294,11 @@ def check_super(c, case, res):
         # 2^-52 x |applied force| (forces up to ~1e3 here) that depends on which other biases are present
         tolf = 1e-12
         tabs = 1e-12
+    if case.get("script"):
+        # forces on a unit-vector / quaternion variable reach the atoms as sums over its components of products that partly
+        # cancel: (f1 + f2).grad and f1.grad + f2.grad differ by rounding of the size of the partial products
+        tolf = max(tolf, 1e-11)
+        tabs = max(tabs, 1e-13)
     nonzero = False
     for t in range(case["T"] + 1):
         ej = joint[t]
